@@ -5,6 +5,7 @@ use std::fs::{File, OpenOptions};
 use std::mem;
 use std::path::Path;
 use std::sync::atomic::{AtomicUsize, Ordering};
+use std::sync::RwLock;
 
 /// This is the size of the initial event map, and also how large it grows by
 /// when we need to grow it. This should be a multiple of the page size (4096)
@@ -25,6 +26,12 @@ pub(crate) struct EventStore {
     // This is a linear sequence of events in an append-only memory mapped file which
     // internally remembers the 'end' pointer and internally prevents multiple writers.
     event_map: MmapAppend,
+
+    // Dereferencing the map takes the map's internal read lock twice (deref, then
+    // get_end). If a resize queues up for the write lock between the two, reader and
+    // resizer wait for each other forever. Readers hold this for reading while they
+    // dereference and the resizer holds it for writing, so that cannot happen.
+    remap_lock: RwLock<()>,
 }
 
 impl EventStore {
@@ -76,6 +83,7 @@ impl EventStore {
             event_map_file,
             event_map_file_len: AtomicUsize::new(len),
             event_map,
+            remap_lock: RwLock::new(()),
         })
     }
 
@@ -90,7 +98,10 @@ impl EventStore {
         if offset >= self.read_event_map_end() {
             return Err(InnerError::EndOfInput.into());
         }
-        let event = Event::delineate(&self.event_map[offset..])?;
+        let event = {
+            let _guard = self.remap_lock.read().unwrap();
+            Event::delineate(&self.event_map[offset..])?
+        };
         Ok(event)
     }
 
@@ -141,7 +152,10 @@ impl EventStore {
                             vpoint!("es.grow.setlen");
 
                             // Resize the memory map
-                            self.event_map.resize(new_file_len)?;
+                            {
+                                let _guard = self.remap_lock.write().unwrap();
+                                self.event_map.resize(new_file_len)?;
+                            }
                             vpoint!("es.grow.remapped");
 
                             // Save this new length
